@@ -52,6 +52,10 @@ CLAIMED = {
    text="SamplingLaws.tla turns each named law into an acceptance region on integer counts evaluated by TLC: uniform = binomial region (z=6) around cell masses that TLC computes from the denotation (16x16 sub-lattice per unit box, explicit slack for cut boxes; exact length shares for polygon edges, quadrants for circles), grid = every box's share within a discretisation bound, Gaussian = cell probabilities from a Phi table on boxes, Latin hypercube = slab indices form a permutation on every axis. TLC picks law x expression x partition; the real samplers draw 400..16384 points per run.",
    note="Statistical decision: z=6 (false alarms < 1e-8 per cell); biases below a few percent of a cell mass are invisible at these N (stated in DESIGN 5 C11/9). Trusted: TLC, box binning of the driver (a quantisation), vh/universe.py.",
    technique="TLC-evaluated acceptance regions (reference measure from the TLA+ denotation) on recorded sample counts", ref="5 C11"),
+ "C03": dict(
+   text="Poly.tla defines grad, laplacian, div, jac, rot, partial, normal_derivative, convective, sym_grad and matrix_div by term rewriting on polynomials over named input groups (incl. variable-group order, column offsets, mixed terms); TLC enumerates the programs, the real operators are applied to torch programs built from the same terms, and TLC compares every recorded row exactly, requires batch = single-row results, and zeros (not errors) for programs constant or linear in a listed variable.",
+   note="Trusted: TLC, the program builder of the driver. Universe: polynomial programs of degree <= 3 over x(2), t(1), k(1), y(3) with integer rows (exact in float32/float64); transcendental programs are outside.",
+   technique="term-rewriting calculus in TLA+, exhaustive case enumeration by TLC, TLC trace validation", ref="5 C03"),
 }
 PENDING_REASON = "check not built yet in this round (design in DESIGN.md section 5); not claimed"
 
